@@ -371,3 +371,111 @@ func ZZ_C18_request_zones() {
 		}
 	}
 }
+
+// zzAdmits: does the pod's required node affinity admit a node of zone z?
+// (terms are OR-ed, the expressions of a term AND-ed; only zone expressions matter here)
+func zzAdmits(pod *corev1.Pod, z string) bool {
+	aff := pod.Spec.Affinity
+	if aff == nil || aff.NodeAffinity == nil || aff.NodeAffinity.RequiredDuringSchedulingIgnoredDuringExecution == nil {
+		return true
+	}
+	terms := aff.NodeAffinity.RequiredDuringSchedulingIgnoredDuringExecution.NodeSelectorTerms
+	if len(terms) == 0 {
+		return true
+	}
+	for _, term := range terms {
+		ok := true
+		for _, e := range term.MatchExpressions {
+			if e.Key != corev1.LabelTopologyZone {
+				continue
+			}
+			in := false
+			for _, v := range e.Values {
+				in = in || v == z
+			}
+			ok = ok && in
+		}
+		if ok {
+			return true
+		}
+	}
+	return false
+}
+
+// C18 zone affinity for fixed-IP pods: a re-created stable-name pod whose
+// retained PodENI names a previous zone is only admitted to nodes of that
+// zone, and - as for every pod - only to zones in which the requested network
+// has a vSwitch.  The affinity is evaluated as the scheduler does (AND of the
+// expressions of a term).  The previous zone may or may not still be a vSwitch
+// zone of the network (the PodNetworking can change between admissions).
+// zz:noreplay JSON patch creation and the cluster eni-config are summarised through engine-side overrides
+func ZZ_C18_fixed_ip_zone() {
+	zones := []string{"za", "zb", "zc"}
+	pod := &corev1.Pod{ObjectMeta: metav1.ObjectMeta{Namespace: "ns", Name: "p0", Annotations: map[string]string{}}}
+	pod.Spec.Containers = []corev1.Container{{Name: "c0"}}
+	stable := zz.Bool("pod.statefulset")
+	if stable {
+		pod.OwnerReferences = []metav1.OwnerReference{{Kind: "StatefulSet"}}
+	} else {
+		pod.OwnerReferences = []metav1.OwnerReference{{Kind: "ReplicaSet"}}
+	}
+	fixed := zz.Bool("network.fixed")
+	pn := v1beta1.PodNetworking{ObjectMeta: metav1.ObjectMeta{Name: "pn-0"}}
+	pn.Spec.VSwitchOptions = []string{"vsw-0"}
+	pn.Spec.SecurityGroupIDs = []string{"sg-0"}
+	pn.Status.Status = v1beta1.NetworkingStatusReady
+	if fixed {
+		pn.Spec.AllocationType = v1beta1.AllocationType{Type: v1beta1.IPAllocTypeFixed, ReleaseStrategy: v1beta1.ReleaseStrategyTTL, ReleaseAfter: "10m"}
+	}
+	has := make([]bool, len(zones))
+	for z := range zones {
+		has[z] = zz.Bool("pn.zone." + zones[z])
+		if has[z] {
+			pn.Status.VSwitches = append(pn.Status.VSwitches, v1beta1.VSwitch{ID: "vsw-" + zones[z], Zone: zones[z]})
+		}
+	}
+	api := &zzAPI{pns: []v1beta1.PodNetworking{pn}}
+	prev := zz.OneOf("podeni.zone", "", "za", "zc")
+	hasRecord := zz.Bool("podeni.exists")
+	recordUsable := hasRecord
+	if hasRecord {
+		api.podENI = &v1beta1.PodENI{ObjectMeta: metav1.ObjectMeta{Namespace: "ns", Name: "p0"}}
+		api.podENI.Spec.Zone = prev
+		if zz.Bool("podeni.has.allocations") {
+			api.podENI.Spec.Allocations = []v1beta1.Allocation{{IPv4: "10.0.0.5"}}
+		} else {
+			recordUsable = false
+		}
+		if zz.Bool("podeni.deleting") {
+			ts := metav1.Unix(1700000000, 0)
+			api.podENI.DeletionTimestamp = &ts
+			recordUsable = false
+		}
+	}
+	pod.Annotations[types.PodNetworksRequest] = string(zzRaw([]controlplane.PodNetworkRef{{InterfaceName: "eth0", Network: "pn-0"}}))
+	cfg := &controlplane.Config{IPAMType: "default", EnableWebhookInjectResource: zzBoolPtr(false), EnableTrunk: zzBoolPtr(true)}
+	out := &zzOut{}
+	zzInstall(out, false, 1, map[*metav1.LabelSelector]int{})
+	req := &admission.Request{AdmissionRequest: admissionv1.AdmissionRequest{Namespace: "ns", Name: "p0"}}
+	req.Object.Raw = zzRaw(pod)
+	resp := podWebhook(context.Background(), req, api, cfg)
+	if fixed && !stable {
+		zz.Assert(!resp.Allowed && !out.patched, "a fixed address is refused for a pod without a stable name")
+		return
+	}
+	zz.Assert(resp.Allowed && out.patched && out.finalPod != nil, "a well-formed request is admitted and mutated")
+	if out.finalPod == nil {
+		return
+	}
+	pinned := fixed && stable && recordUsable && prev != ""
+	anyZone := has[0] || has[1] || has[2]
+	for z := range zones {
+		adm := zzAdmits(out.finalPod, zones[z])
+		zz.Assert(zz.Implies(adm && anyZone, has[z]), "the zone affinity only admits zones in which the requested network has a vSwitch")
+		zz.Assert(zz.Implies(adm && pinned, zones[z] == prev), "a re-created fixed-address pod is only admitted to the zone of its retained interface")
+		zz.Assert(zz.Implies(has[z] && (!pinned || zones[z] == prev), adm), "every zone the network and the retained interface allow is admitted")
+	}
+	if pinned {
+		zz.Reach("pinned to previous zone")
+	}
+}
